@@ -4,7 +4,7 @@
 (*  thin  : line::Points — one Next step = one call of next() (points.rs:50,  *)
 (*          bresenham.rs:140) for every delta in [-R, R]^2 from two starts;   *)
 (*  thick : ThickPoints  — one Next step = one call of next()                 *)
-(*          (thick_points.rs:229) for every delta in [-RT, RT]^2, w <= WMax.  *)
+(*          (thick_points.rs:232) for every delta in [-RT, RT]^2, w <= WMax.  *)
 (* Every explored case is printed as a (G) descriptor, so the recorder        *)
 (* replays exactly these lines into the real code.                            *)
 EXTENDS P_C17, TLC, Json
